@@ -170,6 +170,7 @@ func run(p *kernel.Plan) (res *kernel.Result) {
 		eOut.NoWriteGates = true
 	} else {
 		eConn.YieldOnClose, eConn.YieldOnDeadline = true, true
+		eConn.EnforceDeadline = true // a write parked past its deadline (stall fault) times out
 	}
 	var under *websocket.Conn
 	ready := &flag{}
@@ -422,6 +423,7 @@ func run(p *kernel.Plan) (res *kernel.Result) {
 	res.Stat("scheduler_steps", int64(s.Steps))
 	res.Stat("task_switches", int64(s.Switches))
 	res.Stat("fault_stall", int64(stalls))
+	res.Stat("transport_write_timeouts", int64(eConn.Timeouts))
 	res.Nontrivial = true
 	if t, ok := s.FirstPanic(); ok {
 		return res.Fail("C15/panic", "task %s: %v\n%s", t.Name, t.Panic, t.Stack)
